@@ -716,11 +716,109 @@ func (e *Exec) absLenImpl(s Slice) Value {
 
 // ---------- ropes (hand-assembled JSON text) ----------
 
+// normaliseRope regroups hand-assembled text so that every string literal that contains symbolic bytes
+// is one raw piece between two literal pieces that end / start with its quotes - whatever way the
+// writer cut it (a quoting routine appends the quote, plain bytes and escape sequences one by one).
+// Inside a literal a symbolic byte that may be a quote or a backslash forks the path.
+func (e *Exec) normaliseRope(rope []RopePiece) []RopePiece {
+	need := false
+	for _, p := range rope {
+		if p.V == nil && !p.B.Concrete() {
+			if p.B.Op != nil {
+				return rope
+			}
+			need = true
+		}
+	}
+	if !need {
+		return rope
+	}
+	var out []RopePiece
+	var lit []byte
+	var body []*T
+	inStr, esc, symBody := false, false, false
+	flush := func() {
+		if len(lit) > 0 {
+			out = append(out, RopePiece{B: Str{S: string(lit)}})
+			lit = nil
+		}
+	}
+	for _, p := range rope {
+		if p.V != nil {
+			if inStr {
+				e.unsupported("embedded JSON value inside a hand-written string literal")
+			}
+			flush()
+			out = append(out, p)
+			continue
+		}
+		for _, t := range p.B.Bytes() {
+			if !inStr {
+				if !t.IsConst() {
+					e.unsupported("symbolic bytes written into JSON text outside a quoted string")
+				}
+				c := byte(t.Val)
+				lit = append(lit, c)
+				if c == '"' {
+					inStr, esc, symBody, body = true, false, false, nil
+				}
+				continue
+			}
+			isQuote, isBack := false, false
+			switch {
+			case t.IsConst():
+				isQuote, isBack = byte(t.Val) == '"', byte(t.Val) == '\\'
+			case esc:
+				symBody = true
+			default:
+				symBody = true
+				if e.Branch(sym.Eq(t, sym.BVC(8, '"'))) {
+					isQuote, t = true, sym.BVC(8, '"')
+				} else if e.Branch(sym.Eq(t, sym.BVC(8, '\\'))) {
+					isBack, t = true, sym.BVC(8, '\\')
+				}
+			}
+			switch {
+			case esc:
+				esc = false
+				body = append(body, t)
+			case isBack:
+				esc = true
+				body = append(body, t)
+			case isQuote:
+				if symBody {
+					flush()
+					out = append(out, RopePiece{B: StrOfBytes(body)})
+				} else {
+					for _, b := range body {
+						lit = append(lit, byte(b.Val))
+					}
+				}
+				lit = append(lit, '"')
+				inStr = false
+			default:
+				body = append(body, t)
+			}
+		}
+	}
+	if inStr {
+		if symBody {
+			e.unsupported("unterminated hand-written string literal with symbolic bytes")
+		}
+		for _, b := range body {
+			lit = append(lit, byte(b.Val))
+		}
+	}
+	flush()
+	return out
+}
+
 func (e *Exec) parseRope(rope []RopePiece) JVal {
 	// fast path: a single embedded value
 	if len(rope) == 1 && rope[0].V != nil {
 		return rope[0].V
 	}
+	rope = e.normaliseRope(rope)
 	// all literal & concrete: parse natively
 	allLit := true
 	for _, p := range rope {
